@@ -22,7 +22,9 @@ def make_docs(seed, n):
             from harness.props import c09
             pts = {"DefaultCalibrator": "poly", "ContextCalibratorList": "two", "SplineCalibrator.order": str(seed % 2), "LinearAdjustment": "8x-8",
                    "TimeEncoding.scale/offset": "offset+scale", "BooleanExpression.shape": ("and-of-or", "or-of-and")[seed % 2], "Unit": "s",
-                   "shortDescription": "short text", "LongDescription": "long text", "TerminationChar": "00", "ReferenceTime.Epoch": "TAI"}
+                   "shortDescription": "short text", "LongDescription": "long text", "TerminationChar": "00", "ReferenceTime.Epoch": "TAI",
+                   "BinaryLength": ("lookup-lists", "lookup")[seed % 2], "StringLength": ("lookup", "lookup-lists")[seed % 2],
+                   "ContextMatch": ("comparisons", "boolean-expression")[seed % 2], "ReferenceTime.OffsetFrom": "N"}
             if seed % 2:
                 pts["DefaultCalibrator"] = "spline"
                 pts["LeadingSize"] = "8"
@@ -106,7 +108,7 @@ def do_load(doc, r, rng):
     from space_packet_parser.xtce.definitions import XtcePacketDefinition
     actual = actual_prefix(r, rng) if doc["kind"] == "gen" else r["prefix"]
     xml = xml_for(doc, r, rng)
-    arg = "bogus" if r["fault"] == "badprefix" else (actual if r["style"] == "prefix" else None)
+    arg = "bogus" if r["fault"] == "badprefix" else (None if r["fault"] == "noprefix" else (actual if r["style"] == "prefix" else None))
     note = ""
     try:
         kw = {"root_container_name": doc["defn"]["root"]} if doc["kind"] == "gen" else {}
@@ -191,7 +193,7 @@ def run(ctx):
     dump = os.path.join(ctx.work, "ns-graph")
     ctx.tlc_expect_ok("LoaderNs", cfg, dump=dump, count=False, tag="dump", workers=4)
     g = load_dot(dump + ".dot")
-    paths, ncov = edge_cover(g, rng=rng, max_paths=(400 if q else None))
+    paths, ncov = edge_cover(g, rng=rng, max_paths=(4000 if q else None))
     ctx.extra["graph"] = {"nodes": len(g.state_text), "edges": g.nedges, "edges_covered": ncov, "paths": len(paths)}
     os.unlink(dump + ".dot")
     from space_packet_parser import common
@@ -244,10 +246,10 @@ def run(ctx):
             doc = alld[di]
             if doc["kind"] == "file":
                 req = {"doc": di, "style": doc["style"], "prefix": doc["prefix"], "xsi": any(k == "xsi" for k, _ in doc["extra"]),
-                       "fault": rng.choice(["none", "none", "none", "badprefix", "malformed", "latefail"])}
+                       "fault": rng.choice(["none", "none", "none", "badprefix", "malformed", "latefail", "noprefix"])}
             else:
                 req = {"doc": di, "style": rng.choice(["prefix", "default", "none"]), "prefix": rng.choice(["xtce", "foo"]), "xsi": rng.random() < 0.5,
-                       "fault": rng.choice(["none", "none", "none", "malformed", "unsupported", "badprefix", "latefail"])}
+                       "fault": rng.choice(["none", "none", "none", "malformed", "unsupported", "badprefix", "latefail", "noprefix"])}
             outcome, gp, gm, same, note = do_load(doc, req, rng)
             ev.append({"req": req, "outcome": outcome, "gp": gp, "gm": model_gm(gm, doc), "same": same, "note": note})
         recs.append(ev)
